@@ -2,6 +2,8 @@ CONSTANT MaxN = 4
 CONSTANT MaxLeaves = 2
 CONSTANT MaxFeats = 2
 CONSTANT MaxLosses = 2
+CONSTANT LeafDTs = {"f64", "f32", "c128", "c64"}
+CONSTANT ConstDTs = {"f64", "c64"}
 CONSTANT SampleMod = 1
 CONSTANT SamplePick = 0
 SPECIFICATION Spec
